@@ -1662,7 +1662,7 @@ def run(out, tier):
         eval_determinism(out, h, drv, base, rng, dcases, st, findings)
         samples.append({"part": "determinism", "files": [[p, fn, txt[:200]] for p, fn, txt in dcases[0]["files"]],
                         "loads": ["%s creation order, num_workers=%d" % (t_, w_) for t_ in ("sorted", "shuffled") for w_ in WORKERS]})
-        eval_wide(out, base, rng, st, 6 * vol, 12 if tier == "quick" else 60)
+        eval_wide(out, base, rng, st, 6 * vol, 40 if tier == "quick" else 120)
     corrupt_for_cli += [("Makefile", b"# @grog\nfoo:\n\techo hi\n", "F1-input"), ("BUILD.json", b'{"targets": [null]}', "F4-input"),
                         ("BUILD.yaml", b"aliases:\n  - ~\n", "F4-input"), ("BUILD.json", b"{", "error"),
                         ("BUILD.yaml", b"targets: [", "error"), ("BUILD.star", b"target(", "error")]
